@@ -57,6 +57,8 @@ type row struct {
 	Mag  []int  `json:"mag"`
 	Site string `json:"site"`
 	X    string `json:"x"` // the integer in hexadecimal (for messages and replay)
+	// Printed is set on parse rows whose literal was produced by the real printer (not by the generator)
+	Printed bool `json:"printed"`
 }
 
 func bytesOf(s string) []int {
@@ -208,9 +210,10 @@ func (c *checker) parseBoth(w int, lit string, origin string) *big.Int {
 	} else if err2 != nil || x2 == nil {
 		c.rep.Fail(mbt.Failure{Signature: sigBase + "asm-rejected", What: fmt.Sprintf("asm.ParseString(%q) fails: %v", mbt.Truncate(src, 100), err2), Case: kase})
 	}
-	c.addRow(row{K: "parse", W: w, Lit: bytesOf(lit), Neg: x1.Sign() < 0, Mag: limbs(x1), Site: "constant.NewIntFromString", X: x1.Text(16)})
+	printed := strings.HasSuffix(origin, "/printed")
+	c.addRow(row{K: "parse", W: w, Lit: bytesOf(lit), Neg: x1.Sign() < 0, Mag: limbs(x1), Site: "constant.NewIntFromString", X: x1.Text(16), Printed: printed})
 	if x2 != nil && x2.Cmp(x1) != 0 {
-		c.addRow(row{K: "parse", W: w, Lit: bytesOf(lit), Neg: x2.Sign() < 0, Mag: limbs(x2), Site: "asm.ParseString", X: x2.Text(16)})
+		c.addRow(row{K: "parse", W: w, Lit: bytesOf(lit), Neg: x2.Sign() < 0, Mag: limbs(x2), Site: "asm.ParseString", X: x2.Text(16), Printed: printed})
 	}
 	return x1
 }
@@ -334,6 +337,11 @@ func (c *checker) judge(label string) {
 		bad++
 		x := fromLimbs(r.Neg, r.Mag)
 		kase := map[string]interface{}{"kind": r.K, "w": r.W, "lit": lit, "x": r.X}
+		if m[2] == "literal-outside-quantifier" && r.Printed {
+			// a literal the real printer produced: its print row carries the verdict
+			bad--
+			continue
+		}
 		if m[2] == "literal-outside-quantifier" {
 			// the generator left the representable range: never a verdict about the code
 			mbt.Infra("LiteralsIntTrace: generated literal i%d %s is outside the property's quantifier", r.W, mbt.Truncate(lit, 80))
